@@ -448,6 +448,16 @@ def r_pivot_argmax(rep, f):
             probs.append("the candidate does not depend on the row index")
         if fn == LUC and lets and len(tast.find(lets[0]["init"], lambda z: z.get("k") == "MethodCall" and z.get("name") == "abs")) < 2:
             probs.append("the complex candidate is not |re| + |im|")
+        # the running maximum starts from the diagonal entry measured the SAME way as the candidates (same matrices under
+        # abs): an initial value that ignores a part lets a smaller sub-diagonal entry win the pivot
+        if lets:
+            under_abs = lambda e: sorted(q["recv"]["e"].get("id") for q in tast.find(e, lambda z: z.get("k") == "MethodCall" and z.get("name") == "abs" and z["recv"].get("k") == "Index" and z["recv"]["e"].get("k") == "Path"))
+            owner = next((b_ for b_ in scope_bodies(f, fn) if tast.contains(b_["body"], lambda z: z is lp)), None)
+            inits = [l_ for l_ in tast.find(owner["body"], lambda z: z.get("k") == "Let" and z["pat"].get("k") == "PBind" and z["pat"].get("id") == acc_id and z.get("init") is not None)] if owner else []
+            if len(inits) == 1 and tast.contains(inits[0]["init"], lambda z: z.get("k") == "MethodCall" and z.get("name") == "abs"):
+                if under_abs(inits[0]["init"]) != under_abs(lets[0]["init"]):
+                    probs.append("the running maximum starts from `%s` but the candidates are measured as `%s`: the diagonal entry is under-estimated and a smaller entry can take the pivot"
+                                 % (tast.render(inits[0]["init"])[:50], tast.render(lets[0]["init"])[:50]))
         if probs:
             rep.violation("R-PIVOT-ARGMAX", key, "; ".join(probs), i_.get("sp"))
         else:
@@ -992,6 +1002,13 @@ def r_jac_policy(rep, f):
     def cmp_facts(c, truth):
         """[(A, B, lt)] : `A < B` is known to be `lt` (True/False) when condition c has the given truth value; conjunctions only"""
         out = []
+        if c.get("k") == "Path" and c.get("res") == "local" and c.get("ty") == "bool" and c.get("id") not in flags and c.get("id") not in dflags:
+            # a named condition (`let keep = theta < thet && ..; if keep {..}`) stands for its initialiser
+            lets_ = tast.find(body, lambda z: z.get("k") == "Let" and z["pat"].get("k") == "PBind" and z["pat"].get("id") == c.get("id") and z.get("init") is not None)
+            asg_ = tast.find(body, lambda z: z.get("k") == "Assign" and z["l"].get("k") == "Path" and z["l"].get("id") == c.get("id"))
+            if len(lets_) == 1 and not asg_:
+                return cmp_facts(lets_[0]["init"], truth)
+            return []
         if c.get("k") == "Binary" and c["op"] == "And" and truth:
             return cmp_facts(c["l"], True) + cmp_facts(c["r"], True)
         if c.get("k") == "Binary" and c["op"] == "Or" and not truth:
